@@ -13,6 +13,7 @@ package c13
 import (
 	"fmt"
 	"os"
+	"path/filepath"
 	"sort"
 	"strings"
 	"sync"
@@ -156,15 +157,27 @@ func run(r *lib.Run) {
 		}
 	}
 
+	// One set of certificates, users and passwords per payload round.
 	matDir := lib.MkTemp("c13-pki")
 	defer func() { _ = os.RemoveAll(matDir) }()
-	mat, err := newMaterial(r.Rng("material"), matDir)
-	if err != nil {
-		r.Inconclusive("could not generate certificates/htpasswd: " + err.Error())
-		return
-	}
-
 	cfgs := configs(r)
+	mats := map[int]*material{}
+	for _, cfg := range cfgs {
+		if mats[cfg.Round] != nil {
+			continue
+		}
+		d := filepath.Join(matDir, fmt.Sprintf("round%d", cfg.Round))
+		if err := os.MkdirAll(d, 0o700); err != nil {
+			r.Inconclusive("scratch: " + err.Error())
+			return
+		}
+		m, err := newMaterial(r.Rng(fmt.Sprintf("material-%d", cfg.Round)), d)
+		if err != nil {
+			r.Inconclusive("could not generate certificates/htpasswd: " + err.Error())
+			return
+		}
+		mats[cfg.Round] = m
+	}
 	r.CountN("configs", int64(len(cfgs)))
 	sem := make(chan struct{}, 5)
 	var wg sync.WaitGroup
@@ -176,7 +189,7 @@ func run(r *lib.Run) {
 		go func(i int, cfg serverCfg) {
 			defer wg.Done()
 			defer func() { <-sem }()
-			s := &session{r: r, cfg: cfg, mat: mat, universe: universe, idx: i,
+			s := &session{r: r, cfg: cfg, mat: mats[cfg.Round], universe: universe, idx: i,
 				rng: r.Rng(fmt.Sprintf("cfg-%d-%s", i, cfg)), refusedBefore: map[string]bool{}}
 			s.run()
 			mu.Lock()
